@@ -219,7 +219,12 @@ class DB:
         return [b for b in self.bodies.values() if b.kind == "Closure" and b.defp.startswith(defp + "::{closure")]
 
     def adt(self, suffix):
+        """the crate's struct/enum named by the last segment of `suffix` (module-agnostic: a type moved to another
+        file keeps its anchor); the qualified form only disambiguates two types of the same name"""
         r = [a for d, a in self.adts.items() if d == suffix or d.endswith("::" + suffix)]
+        if len(r) != 1:
+            name = suffix.split("::")[-1]
+            r = [a for d, a in self.adts.items() if d.split("::")[-1] == name]
         if len(r) != 1:
             raise AnchorError("anchor adt %s: expected one, found %d" % (suffix, len(r)))
         return r[0]
@@ -250,7 +255,11 @@ def trait_matches(tr, want):
     m = re.match(r"^<(.*) as (.*)>$", tr)
     t = m.group(2) if m else tr
     if "<" in want:
-        return t.endswith(want) or squash(t).endswith(squash(want))
+        if t.endswith(want) or squash(t).endswith(squash(want)):
+            return True
+        # module-agnostic: compare with every path reduced to its last segment (`From<&a::b::T>` ~ `From<&T>`)
+        short_ = lambda x: re.sub(r"(?:[A-Za-z_][A-Za-z0-9_]*::)+", "", squash(x))
+        return short_(t).endswith(short_(want))
     base = strip_generics(t)
     return base == want or base.endswith("::" + want)
 
